@@ -143,7 +143,7 @@ func genCase(bigPosOnly bool) func(t *rapid.T) Case {
 		if gen.Chance(t, 1, 4, "manyNames") {
 			names = gen.NamePool(9)
 		}
-		return Case{F: gen.Formula(t, gen.FormulaOpts{MaxDepth: rapid.IntRange(1, 5).Draw(t, "depth"), Names: names, MaxGroup: 9, BigGroupsPos: bigPosOnly}, 0, 1)}
+		return Case{F: gen.Formula(t, gen.FormulaOpts{MaxDepth: rapid.IntRange(1, 5).Draw(t, "depth"), Names: names, MaxGroup: 9, BigGroupsPos: bigPosOnly, Groups: &[][]string{}}, 0, 1)}
 	}
 }
 
